@@ -2,7 +2,18 @@
 """Print the brief for a seeded-change worker: only the property texts and its scratch worktrees (nothing from /verif)."""
 import json, sys
 props = {json.loads(l)["id"]: json.loads(l) for l in open("/verif/properties.jsonl")}
-ids = sys.argv[1:]
+ids = [a for a in sys.argv[1:] if not a.startswith("--")]
+ROUND2 = "--round2" in sys.argv
+K1, K2 = (3, 4) if ROUND2 else (1, 2)
+def earlier(i):
+    out = []
+    for k in (1, 2):
+        try:
+            m = json.load(open("/verif/seeded/%s-%d/meta.json" % (i, k)))
+            out.append("  - already tried (do something DIFFERENT, other code site and other mechanism): " + (m.get("breaks") or "")[:400])
+        except Exception:
+            pass
+    return "\n".join(out)
 out = []
 out.append("""You are helping to evaluate a verification effort for the Python template engine pallets/jinja (Jinja2 3.2.0.dev0).
 Your job: for each property below, craft TWO different realistic code changes ("seeded defects") to pallets/jinja that BREAK the property while the package still imports and the repository's existing test suite still passes — the kind of regression a plausible refactoring, optimisation or "simplification" commit could introduce. You work ONLY in your own scratch git worktrees (listed per property; they are checkouts of the repository at its current HEAD). Do NOT read or touch /verif or /repo (other people are working there) and do not look for existing verification code: your changes must be independent of it.
@@ -19,7 +30,7 @@ Requirements for each change:
   * The two changes for one property must use different mechanisms / code sites.
   * A demonstration: a small standalone Python program `demo.py` (uses only jinja2 and the stdlib, exits 0 and prints OK when the property holds on its input, exits 1 and prints what went wrong when it does not). It must FAIL (exit 1) with your change and PASS (exit 0) on the unchanged worktree (verify both: `git diff > patch.diff; git apply -R patch.diff` and `git apply patch.diff` — do NOT use `git stash`, the stash is shared between all worktrees).
 
-Deliverables, for change k (1 or 2) of property <ID>: directory /tmp/seed-out/<ID>-<k>/ containing
+Deliverables, for change k (the change numbers are given per property below) of property <ID>: directory /tmp/seed-out/<ID>-<k>/ containing
   patch.diff   (output of `git diff` in the worktree, applies with `git apply` at the repository's HEAD)
   demo.py
   meta.json    {"property": "<ID>", "summary": "...what the change does...", "needs": "...what is needed for it to manifest...", "files": [...], "tests_pass": true, "demo_fails_with_patch": true, "demo_passes_without": true}
@@ -28,5 +39,5 @@ Final report: one short paragraph per change (what, where, what it needs to mani
 """)
 for i in ids:
     p = props[i]
-    out.append("=== Property %s: %s ===\n%s\nQuantified over: %s\nWorktrees: /tmp/wt-%s-1 (change 1), /tmp/wt-%s-2 (change 2)\n" % (i, p["title"], p["statement"], p["quantifier"]["text"], i, i))
+    out.append("=== Property %s: %s ===\n%s\nQuantified over: %s\nWorktrees: /tmp/wt-%s-%d (change %d), /tmp/wt-%s-%d (change %d)\n%s\n" % (i, p["title"], p["statement"], p["quantifier"]["text"], i, K1, K1, i, K2, K2, earlier(i) if ROUND2 else ""))
 print("\n".join(out))
